@@ -10,7 +10,7 @@ import sys
 import textwrap
 import types as pytypes
 import z3
-from .types import (T, INT, BOOL, REAL, STR, CPS, FLAGS, NONET, TUnint, TOpt, TSeq, TTup, TUnion, TMap, TRec,
+from .types import (z3_string_value, T, INT, BOOL, REAL, STR, CPS, FLAGS, NONET, TUnint, TOpt, TSeq, TTup, TUnion, TMap, TRec,
                     V, VNone, VPy, VObj, ObjType, const_value, str_to_cps)
 from .sym import Engine, Contract, State, Outcome, Unsupported, fresh, fresh_name, exc_is
 from . import extract
@@ -325,6 +325,10 @@ class World:
             if v is not NotImplemented:
                 return v
         if isinstance(base, V):
+            if base.t == CPS and attr == 'append' and isinstance(recv_node, ast.Name) and recv_node.id in eng.c.joined_locals:
+                item = eng.coerce(args[0], CPS, node)
+                eng.assign(_store_ctx(recv_node), V(CPS, z3.Concat(base.term, item.term)), st)
+                return VNone()
             if base.t in (STR, CPS):
                 return self.str_method(eng, base, attr, args, kwargs, st, node)
             if isinstance(base.t, TSeq):
@@ -380,12 +384,19 @@ class World:
             return V(INT, z3.IndexOf(s, xv.term, 0))
         if attr == 'join':
             seq = args[0]
+            if isinstance(seq, V) and seq.t == CPS and getattr(node, 'args', None) and isinstance(node.args[0], ast.Name) and \
+                    node.args[0].id in eng.c.joined_locals:
+                return seq
+            if isinstance(seq, V) and seq.t == TSeq(CPS) and (
+                    (t == STR and z3.is_string_value(s) and z3_string_value(s) == '') or
+                    (t == CPS and z3.is_true(z3.simplify(z3.Length(s) == 0)))) and 'flat' in self.specs:
+                return V(CPS, self.specs['flat'].declare()(seq.term))
             if isinstance(seq, V) and isinstance(seq.t, TSeq) and seq.t.elem == t:
                 f = self.ufunc(f'str.join.{t.name}', t.sort(), seq.t.sort(), t.sort())
                 return V(t, f(s, seq.term))
             if isinstance(seq, V) and seq.t == TSeq(CPS) and t == STR and z3.is_string_value(s):
                 f = self.ufunc('str.join.cps', CPS.sort(), seq.t.sort(), CPS.sort())
-                return V(CPS, f(str_to_cps(s.as_string()), seq.term))
+                return V(CPS, f(str_to_cps(z3_string_value(s)), seq.term))
             raise Unsupported(f'join of {seq!r}', node)
         if attr == 'lower':
             f = self.ufunc(f'str.lower.{t.name}', t.sort(), t.sort())
@@ -509,7 +520,7 @@ class World:
             obj, nm = args[0], args[1]
             if not (isinstance(nm, VPy) or (isinstance(nm, V) and z3.is_string_value(nm.term))):
                 raise Unsupported('getattr with a non-constant name', node)
-            attr = nm.obj if isinstance(nm, VPy) else nm.term.as_string()
+            attr = nm.obj if isinstance(nm, VPy) else z3_string_value(nm.term)
             if len(args) > 2:
                 for r in self.attr_rules:
                     v = r(eng, obj, ('getattr-default', attr, args[2]), st, node)
